@@ -585,6 +585,24 @@ func interleave(r *vh.Run, i int) {
 	}
 	srv := vh.New(vh.Conf(kind, root, vh.Neutral))
 	defer srv.Close()
+	acked := map[string][]byte{} // digest -> content of every completion acknowledged in this trial
+	defer func() {
+		// what was acknowledged earlier must still hash to its digest after everything that followed (a later upload
+		// must not reach into the bytes of an earlier blob)
+		for d, want := range acked {
+			rq := vh.Req{Method: "GET", URL: "/v2/il/blobs/" + d}
+			g := vh.Do(srv, rq)
+			r.Count("interleave_final_rereads", 1)
+			if g.Status != 200 {
+				continue
+			}
+			if p := vh.G1(rq, g); p != "" || string(g.Body) != string(want) {
+				r.Violation("g1:interleaved-session-later", fmt.Sprintf("a blob acknowledged earlier in the trial no longer serves its bytes after later uploads: GET %s: %s (%d bytes served, %d acknowledged)", rq.URL, p, len(g.Body), len(want)),
+					map[string]any{"trial": i, "store": kind.String()})
+				return
+			}
+		}
+	}()
 	for t := 0; t < 6; t++ {
 		alg := algs[rng.Intn(3)]
 		a := []byte(fmt.Sprintf("first part %d.%d;", i, t))
@@ -616,13 +634,32 @@ func interleave(r *vh.Run, i int) {
 		default:
 			declared = append(append([]byte{}, a...), pieces[0]...)
 		}
-		d := vh.DigestOf(alg, declared)
+		// the completing digest may be of another algorithm than the session was created with (the store then
+		// hashes what it holds again)
+		finAlg := alg
+		if rng.Intn(2) == 0 {
+			finAlg = algs[rng.Intn(3)]
+		}
+		d := vh.DigestOf(finAlg, declared)
+		// the third party: nothing, or a cancel of the same session
+		cancel := rng.Intn(3) == 0
 		pr, pw := io.Pipe()
 		req := httptest.NewRequest("PATCH", loc, &pipeBody{r: pr})
 		req.ContentLength = -1
 		var wg sync.WaitGroup
 		var stPatch, stPut int
 		wg.Add(2)
+		if cancel {
+			wg.Add(1)
+			cd := rng.Intn(5)
+			go func() {
+				defer wg.Done()
+				for k := 0; k < cd; k++ {
+					runtime.Gosched()
+				}
+				vh.Do(srv, vh.Req{Method: "DELETE", URL: strings.SplitN(loc, "?", 2)[0]})
+			}()
+		}
 		go func() {
 			defer wg.Done()
 			w := httptest.NewRecorder()
@@ -652,7 +689,10 @@ func interleave(r *vh.Run, i int) {
 		_ = pw.Close()
 		wg.Wait()
 		r.Count("interleaved_completions", 1)
-		r.Distinct("cells", fmt.Sprintf("interleave/%s/%s/%s/patch%d/put%d", kind, alg, declKind, stPatch/100, stPut/100))
+		r.Distinct("cells", fmt.Sprintf("interleave/%s/%s>%s/%s/cancel=%v/patch%d/put%d", kind, alg, finAlg, declKind, cancel, stPatch/100, stPut/100))
+		if stPut == 201 {
+			acked[d] = declared
+		}
 		// every digest a client could name for this session
 		cands := [][]byte{a, ab}
 		acc := append([]byte{}, a...)
